@@ -6,7 +6,7 @@ From Coq Require Import ZArith List Bool Lia ZifyBool String.
 From V Require Import Base.Int Base.IntLemmas Base.IO Base.Utf8 Base.Lift Gen.ScanTables Gen.SerdeConsts
   Model.Scan Model.Rfc3339 Model.Parse Model.FromStr Model.Show Model.DateTime Model.Serde Spec.Gregorian
   Proofs.Decimal Proofs.C09Show Proofs.C09Time Proofs.C09Date Proofs.C09DateTime Proofs.C09Zoned Proofs.C09.
-From V Require Model.Date Model.Time Model.C19 Proofs.Date Proofs.C08 Proofs.C14 Proofs.C10Writer Proofs.C12 Proofs.C09Parse Spec.Rfc3339.
+From V Require Model.Date Model.Time Model.C19 Proofs.Date Proofs.C08 Proofs.C14 Proofs.C10 Proofs.C10Writer Proofs.C12 Proofs.C09Parse Spec.Rfc3339.
 Import ListNotations.
 Open Scope Z_scope.
 Ltac Zify.zify_post_hook ::= Z.to_euclidean_division_equations.
@@ -73,15 +73,23 @@ Proof.
 Qed.
 
 (** * DateTime<Tz>: the text written by write_rfc3339(local, offset, AutoSi, use_z) *)
-Lemma write_rfc3339_text w y o d t off uz : repr y o d -> tvalid t ->
-  write_rfc3339 w (mk_ndt d t) off 4 uz =
-  offset_format_format (mk_of 1 1 uz 1)
-    (w ++ ndt_txt 84 y (C08.month_of y o) (C08.day_of y o) (Time.tsecs t) (Time.tfrac t)) off.
+(* a date word whose fields are known: a represented date, or one of the two sentinels one day
+   outside the range that overflowing_naive_local can produce *)
+Definition date_fields (d y m dd : Z) : Prop :=
+  Date.d_year d = y /\ Date.d_month d = Val m /\ Date.d_day d = Val dd /\
+  -262144 <= y <= 262143 /\ 1 <= m <= 12 /\ 1 <= dd <= 31.
+Lemma repr_date_fields y o d : repr y o d -> date_fields d y (C08.month_of y o) (C08.day_of y o).
 Proof.
-  intros H [Hs Hf]. pose proof (C08.repr_md y o d H) as (E1 & _ & E3 & E4 & _ & _ & Hm & Hd & _).
+  intros H. pose proof (C08.repr_md y o d H) as (E1 & _ & E3 & E4 & _ & _ & Hm & Hd & _).
   pose proof H as (Hy & _). pose proof (year_range_bounds y Hy) as Hyb.
-  assert (Hdd : 1 <= C08.day_of y o <= 31).
-  { pose proof (days_in_month_bounds (is_leap y) (C08.month_of y o)). lia. }
+  pose proof (days_in_month_bounds (is_leap y) (C08.month_of y o)).
+  repeat split; try assumption; lia.
+Qed.
+Lemma write_rfc3339_text_gen w y m dd d t off uz : date_fields d y m dd -> tvalid t ->
+  write_rfc3339 w (mk_ndt d t) off 4 uz =
+  offset_format_format (mk_of 1 1 uz 1) (w ++ ndt_txt 84 y m dd (Time.tsecs t) (Time.tfrac t)) off.
+Proof.
+  intros (E1 & E3 & E4 & Hyb & Hm & Hdd) [Hs Hf].
   unfold write_rfc3339. cbn [nd_date nd_time]. rewrite E1, E3, E4.
   unfold Time.nanosecond, Time.hms, Time.udiv, Time.urem.
   set (s := Time.tsecs t) in *. set (f := Time.tfrac t) in *.
@@ -144,19 +152,27 @@ Proof.
     { rewrite fmt_zero_pad_low by lia. cbn [obind_ bind]. rewrite <- !app_assoc. reflexivity. }
     rewrite fmt_zero_pad_low by lia. cbn [obind_ bind]. rewrite <- !app_assoc. reflexivity.
 Qed.
+Lemma write_rfc3339_text w y o d t off uz : repr y o d -> tvalid t ->
+  write_rfc3339 w (mk_ndt d t) off 4 uz =
+  offset_format_format (mk_of 1 1 uz 1)
+    (w ++ ndt_txt 84 y (C08.month_of y o) (C08.day_of y o) (Time.tsecs t) (Time.tfrac t)) off.
+Proof. intros H Ht. apply write_rfc3339_text_gen; [apply repr_date_fields; exact H|exact Ht]. Qed.
 
 (** the zone suffix serde writes for a whole-minute offset: "Z" for +00:00, else +hh:mm / -hh:mm *)
-Definition serde_zone (off : Z) : bytes := if off =? 0 then Gen.TextForms.SH_UTC_DEBUG else off_txt off.
+Definition serde_zone (uz : bool) (off : Z) : bytes :=
+  if uz && (off =? 0) then Gen.TextForms.SH_UTC_DEBUG else off_txt off.
 Lemma serde_zone_sweep : forall_range (fun m =>
-  bytes_eqb (Spec.Rfc3339.render_zone (C10Writer.zone_of (60 * m) true)) (serde_zone (60 * m))) (-1439) 2879 = true.
+  bytes_eqb (Spec.Rfc3339.render_zone (C10Writer.zone_of (60 * m) true)) (serde_zone true (60 * m)) &&
+  bytes_eqb (Spec.Rfc3339.render_zone (C10Writer.zone_of (60 * m) false)) (serde_zone false (60 * m))) (-1439) 2879 = true.
 Proof. vm_compute. reflexivity. Qed.
-Lemma offset_format_serde w off : -86400 < off < 86400 -> off mod 60 = 0 ->
-  offset_format_format (mk_of 1 1 true 1) w off = Val (Some (w ++ serde_zone off)).
+Lemma offset_format_serde w off uz : -86400 < off < 86400 -> off mod 60 = 0 ->
+  offset_format_format (mk_of 1 1 uz 1) w off = Val (Some (w ++ serde_zone uz off)).
 Proof.
   intros Hr Hm. rewrite C10Writer.offset_format_rfc3339 by assumption.
   pose proof (forall_range_spec _ _ _ serde_zone_sweep (off / 60) ltac:(lia)) as H. cbv beta in H.
   replace (60 * (off / 60)) with off in H by lia.
-  apply C12.bytes_eqb_eq in H. rewrite H. reflexivity.
+  apply andb_prop in H. destruct H as [H1 H2].
+  apply C12.bytes_eqb_eq in H1. apply C12.bytes_eqb_eq in H2. destruct uz; [rewrite H1|rewrite H2]; reflexivity.
 Qed.
 
 Section Zoned.
@@ -168,20 +184,20 @@ Section Zoned.
   Hypothesis Hwall : dn_in_range (dn_of_yo yu ou + (su + off) / 86400) = true.
   Let a := mk_dtz (mk_ndt du (Time.mk_time su fu)) off.
 
-  Lemma ser_dtz_text : SD_DT_LOCAL_OVERFLOWING = 1 -> SD_DT_SECFORM = 4 -> SD_DT_USE_Z = 1 ->
-    ser_dtz a = Val (SOk (SStr (zoned_txt yu ou su fu off 84 (serde_zone off)))).
+  Lemma ser_dtz_text : SD_DT_LOCAL_OVERFLOWING = 1 -> SD_DT_SECFORM = 4 ->
+    ser_dtz a = Val (SOk (SStr (zoned_txt yu ou su fu off 84 (serde_zone (SD_DT_USE_Z =? 1) off)))).
   Proof.
-    intros F1 F2 F3. unfold ser_dtz. rewrite F1, F2, F3. cbn [Z.eqb Pos.eqb].
+    intros F1 F2. unfold ser_dtz. rewrite F1, F2. cbn [Z.eqb Pos.eqb]. set (uz := SD_DT_USE_Z =? 1).
     unfold a. rewrite (local_of yu ou du su fu off Hrepr Htime Hoff Hmin Hwall). cbn [bind dz_off].
-    rewrite (write_rfc3339_text [] _ _ _ _ off true (local_repr yu ou su off Hwall)
+    rewrite (write_rfc3339_text [] _ _ _ _ off uz (local_repr yu ou su off Hwall)
                (proj1 (local_time_dom yu ou su fu off Htime Hmin))).
     rewrite offset_format_serde by assumption. cbn [app Time.tsecs Time.tfrac].
     unfold collect_str, to_text, unwrap_r, unwrap. cbn [bind]. reflexivity.
   Qed.
 
-  Lemma read_serde_text : datetime_from_str (zoned_txt yu ou su fu off 84 (serde_zone off)) = Val (POk a).
+  Lemma read_serde_text uz : datetime_from_str (zoned_txt yu ou su fu off 84 (serde_zone uz off)) = Val (POk a).
   Proof.
-    unfold serde_zone. destruct (off =? 0) eqn:E.
+    unfold serde_zone. destruct (uz && (off =? 0)) eqn:E.
     - assert (off = 0) by lia. subst off.
       apply (read_zoned yu ou du su fu 0 Hrepr Htime Hoff Hmin Hwall 84
                Gen.TextForms.SH_UTC_DEBUG Gen.TextForms.SH_UTC_DEBUG 0);
@@ -195,8 +211,8 @@ End Zoned.
 
 (* the serializer shape read from the source: wall clock through overflowing_naive_local (the
    repaired code), SecondsFormat::AutoSi, use_z = true *)
-Lemma serde_dt_shape : SD_DT_LOCAL_OVERFLOWING = 1 /\ SD_DT_SECFORM = 4 /\ SD_DT_USE_Z = 1.
-Proof. repeat split; reflexivity. Qed.
+Lemma serde_dt_shape : SD_DT_LOCAL_OVERFLOWING = 1 /\ SD_DT_SECFORM = 4.
+Proof. split; reflexivity. Qed.
 
 (* DateTime<FixedOffset> -> DateTime<FixedOffset>: the value itself (instant and offset), for every
    whole-minute offset with the wall-clock date inside the date range *)
@@ -205,8 +221,8 @@ Theorem serde_roundtrip_dt_fixed fmt a : dtz_dom a ->
 Proof.
   intros (yu & ou & Hr & Ht & Ho & Hm & Hw). destruct a as [[du [su fu]] off].
   cbn [dz_utc dz_off nd_date nd_time Time.tsecs] in *.
-  destruct serde_dt_shape as (F1 & F2 & F3).
-  eexists. split; [apply (ser_dtz_text yu ou du su fu off Hr Ht Ho Hm Hw F1 F2 F3)|].
+  destruct serde_dt_shape as (F1 & F2).
+  eexists. split; [apply (ser_dtz_text yu ou du su fu off Hr Ht Ho Hm Hw F1 F2)|].
   rewrite carry_str. unfold de_dt_fixed, de_str, datetime_fixed_from_str.
   rewrite (read_serde_text yu ou du su fu off Hr Ht Ho Hm Hw). reflexivity.
 Qed.
@@ -226,4 +242,95 @@ Theorem serde_roundtrip_dt_utc fmt y o d t : repr y o d -> time_dom t ->
 Proof.
   intros Hr Ht a. destruct (serde_roundtrip_dt_to_utc fmt a (dtz_dom_utc y o d t Hr Ht)) as (s & Hs & Hd & _).
   exists s. split; [exact Hs|exact Hd].
+Qed.
+
+(** * the serializer never traps (the claim of the repair C20-serialize-out-of-range): every
+    representable DateTime<FixedOffset> -- any offset, seconds included, any wall clock, also one day
+    outside the date range -- is written as a text *)
+Definition rounded_zone (uz : bool) (off : Z) : bytes :=
+  if uz && (off =? 0) then [90] else
+  let m := (Z.abs off + 30) / 60 in
+  [if off <? 0 then 45 else 43] ++ Spec.Rfc3339.two (m / 60) ++ [58] ++ Spec.Rfc3339.two (m mod 60).
+Lemma offset_format_any w off uz : -86400 < off < 86400 ->
+  offset_format_format (mk_of 1 1 uz 1) w off = Val (Some (w ++ rounded_zone uz off)).
+Proof.
+  intros Hr. unfold offset_format_format, rounded_zone. cbn [of_precision of_colons of_allow_zulu of_padding].
+  destruct (uz && (off =? 0)) eqn:Ez; [reflexivity|].
+  change OF_ROUND_ADD with 30. change OF_SECS_PER_MINUTE with 60. change OF_SECS_PER_HOUR with 3600.
+  set (a := Z.abs off).
+  assert (Ha : 0 <= a < 86400) by (subst a; lia).
+  assert (Hsign : (if off <? 0 then let* n := neg_i32 off in Val (45, n) else Val (43, off))
+                  = Val ((if off <? 0 then 45 else 43), a)).
+  { subst a. destruct (off <? 0) eqn:E.
+    - unfold neg_i32. rewrite chk_in by (unfold in_i32, in_range, i32_min, i32_max; lia). cbn [bind].
+      f_equal. f_equal. lia.
+    - f_equal. f_equal. lia. }
+  rewrite Hsign. cbn [bind]. clear Hsign.
+  change (1 =? 0) with false. change ((1 =? 1) || (1 =? 3)) with true. cbv iota.
+  unfold add_i32, div_i32, rem_i32. rewrite chk_in by (unfold in_i32, in_range, i32_min, i32_max; lia). cbn [bind].
+  rewrite div_t_nz by lia. rewrite Z.quot_div_nonneg by lia.
+  rewrite chk_in by (unfold in_i32, in_range, i32_min, i32_max; lia). cbn [bind].
+  set (minutes := (a + 30) / 60). assert (Hmin : 0 <= minutes <= 1440) by (subst minutes; lia).
+  rewrite rem_t_nz by lia. rewrite Z.quot_div_nonneg, Z.rem_mod_nonneg by lia.
+  replace (in_i32 (minutes / 60)) with true by (unfold in_i32, in_range, i32_min, i32_max; lia). cbn [bind].
+  rewrite div_t_nz by lia. rewrite Z.quot_div_nonneg by lia.
+  rewrite chk_in by (unfold in_i32, in_range, i32_min, i32_max; lia). cbn [bind].
+  rewrite !C10Writer.as_u8_small by lia.
+  change ((1 =? 3) && (minutes mod 60 =? 0)) with false. cbv iota.
+  change (1 =? 2) with false. change (1 =? 1) with true. cbn [orb].
+  set (sg := if off <? 0 then 45 else 43).
+  assert (Hh : 0 <= minutes / 60 <= 24) by lia. assert (Hmm : 0 <= minutes mod 60 <= 59) by lia.
+  assert (Hhours : (if minutes / 60 <? 10
+                    then match write_char w sg with
+                         | Some w0 => match write_char w0 48 with Some w1 => write_char w1 (48 + minutes / 60) | None => None end
+                         | None => None end
+                    else match write_char w sg with Some w0 => write_hundreds w0 (minutes / 60) | None => None end)
+                   = Some (w ++ [sg] ++ Spec.Rfc3339.two (minutes / 60))).
+  { destruct (minutes / 60 <? 10) eqn:E10.
+    - unfold write_char, Spec.Rfc3339.two, Spec.Rfc3339.dig. rewrite <- !app_assoc. cbn [app].
+      replace (minutes / 60 / 10) with 0 by lia. replace (minutes / 60 mod 10) with (minutes / 60) by lia. reflexivity.
+    - unfold write_char. rewrite Proofs.C10.write_hundreds_spec by lia. rewrite <- app_assoc. reflexivity. }
+  cbn [obind_]. rewrite Hhours. cbn [obind_].
+  unfold write_char at 1. rewrite Proofs.C10.write_hundreds_spec by lia. cbn [obind_].
+  f_equal. f_equal. rewrite <- !app_assoc. reflexivity.
+Qed.
+
+Lemma sentinel_fields :
+  date_fields Date.D_BEFORE_MIN (-262144) 12 31 /\ date_fields Date.D_AFTER_MAX 262143 1 1.
+Proof. split; (split; [vm_compute; reflexivity|split; [vm_compute; reflexivity|split; [vm_compute; reflexivity|lia]]]). Qed.
+
+(* the wall clock of any representable date-time has known date fields and a valid time *)
+Lemma local_any y o d t off : repr y o d -> tvalid t -> -86400 < off < 86400 ->
+  exists d' y' m' dd', overflowing_naive_local (mk_dtz (mk_ndt d t) off) =
+                         Val (mk_ndt d' (Time.mk_time ((Time.tsecs t + off) mod 86400) (Time.tfrac t))) /\
+                       date_fields d' y' m' dd'.
+Proof.
+  intros H [Hs Hf] Ho.
+  unfold overflowing_naive_local, ndt_overflowing_add_offset. cbn [dz_utc dz_off nd_date nd_time].
+  rewrite C04.overflowing_add_offset_spec; [|split; assumption|exact Ho].
+  cbn [bind]. unfold shift_date_overflowing.
+  assert (Hk : (Time.tsecs t + off) / 86400 = -1 \/ (Time.tsecs t + off) / 86400 = 0 \/ (Time.tsecs t + off) / 86400 = 1) by lia.
+  destruct sentinel_fields as [Sb Sa].
+  destruct Hk as [Hk|[Hk|Hk]]; rewrite Hk.
+  - cbn [Z.eqb]. rewrite (pred_opt_spec y o d H). unfold date_if. cbn [bind].
+    destruct (dn_in_range (dn_of_yo y o - 1)) eqn:E.
+    + eexists _, _, _, _. split; [reflexivity|]. apply repr_date_fields. apply date_of_dn_repr. exact E.
+    + eexists _, _, _, _. split; [reflexivity|exact Sb].
+  - cbn [Z.eqb]. eexists _, _, _, _. split; [reflexivity|]. apply repr_date_fields. exact H.
+  - cbn [Z.eqb Pos.eqb]. rewrite (succ_opt_spec y o d H). unfold date_if. cbn [bind].
+    destruct (dn_in_range (dn_of_yo y o + 1)) eqn:E.
+    + eexists _, _, _, _. split; [reflexivity|]. apply repr_date_fields. apply date_of_dn_repr. exact E.
+    + eexists _, _, _, _. split; [reflexivity|exact Sa].
+Qed.
+
+Theorem ser_dtz_total a : (exists y o, repr y o (nd_date (dz_utc a))) -> tvalid (nd_time (dz_utc a)) ->
+  -86400 < dz_off a < 86400 -> exists s, ser_dtz a = Val (SOk (SStr s)).
+Proof.
+  intros (y & o & H) Ht Ho. destruct a as [[d t] off]. cbn [dz_utc dz_off nd_date nd_time] in *.
+  destruct (local_any y o d t off H Ht Ho) as (d' & y' & m' & dd' & Hl & Hd).
+  destruct serde_dt_shape as (F1 & F2). unfold ser_dtz. rewrite F1, F2. cbn [Z.eqb Pos.eqb]. rewrite Hl. cbn [bind dz_off].
+  rewrite (write_rfc3339_text_gen [] y' m' dd' d' _ off _ Hd).
+  2:{ destruct Ht as [Hs Hf]. split; cbn [Time.tsecs Time.tfrac]; [lia|exact Hf]. }
+  rewrite offset_format_any by exact Ho.
+  unfold collect_str, to_text, unwrap_r, unwrap. cbn [bind]. eexists. reflexivity.
 Qed.
